@@ -95,6 +95,16 @@ def run(ctx):
             ctx.check(abs(v1 - ref) <= 1e-15 and np.all(np.abs(v2 - ref) <= 1e-15), 'cdf_getter:step', 'cdf(%s) of sample %s = %r, right-continuous step function gives %r' % (c['z'], c['smp'], v1, ref), case=row)
             f2 = teneva.cdf_getter(list(c['smp']))
             ctx.check(abs(f2(float(c['z'])) - ref) <= 1e-15, 'cdf_getter:list', 'list sample disagrees', case=row)
+    # integer boxes x every grid size up to 128: both ends exactly on the bounds, every node inside the box (exact arithmetic
+    # at the ends: I / (n - 1) = 1 and cos(0) = 1, cos(pi) = -1)
+    for (a_, b_) in ((-6., 1.), (-6., 7.), (-3., 4.), (0., 1.), (-7., 0.), (2., 9.), (-1., 1.), (0., 3.), (-5., 6.)):
+        for n_ in range(2, 129 if quick else 400):
+            for kind in ('uni', 'cheb'):
+                xs = np.asarray(teneva.ind_to_poi(np.arange(n_), a_, b_, n_, kind), dtype=float)
+                lo_, hi_ = (xs[0], xs[-1]) if kind == 'uni' else (xs[-1], xs[0])
+                ctx.case(key=('ends', a_, b_, n_, kind), nontrivial=n_ > 23)
+                ctx.check(xs.shape == (n_,) and lo_ == a_ and hi_ == b_ and xs.min() >= a_ and xs.max() <= b_, 'ind_to_poi:end-' + kind,
+                          'box [%g, %g], n=%d, %s grid: end nodes (%r, %r) are not exactly the bounds, or a node lies outside the box' % (a_, b_, n_, kind, lo_, hi_))
     # option handling: scalar vs per-dimension, inconsistent lengths, history independence of the option arrays
     for t in range(20 if quick else 200):
         d = int(rng.integers(1, 5))
@@ -117,6 +127,13 @@ def run(ctx):
             P = teneva.ind_to_poi(i_s, a, b, n, kind)
             P1 = np.array([teneva.ind_to_poi(i, [a] * d, [b] * d, [n] * d, kind) for i in i_s])
             ctx.check(np.allclose(P, P1, rtol=0, atol=0) and P.min() >= a - 1e-9 * abs(b - a) and P.max() <= b + 1e-9 * abs(b - a), 'ind_to_poi:options', 'single / batch disagree or points outside the box')
+            # integer boxes: the affine map is exact at both ends, so index 0 / n-1 hit the bounds exactly and no node leaves the box
+            if float(a).is_integer() and float(b).is_integer() and abs(a) < 2 ** 20 and abs(b) < 2 ** 20:
+                allI = np.arange(n)
+                xs = np.asarray(teneva.ind_to_poi(np.stack([allI] * d, axis=1), a, b, n, kind), dtype=float)
+                lo_, hi_ = (xs[0, 0], xs[-1, 0]) if kind == 'uni' else (xs[-1, 0], xs[0, 0])
+                ctx.check(lo_ == a and hi_ == b and xs.min() >= a and xs.max() <= b, 'ind_to_poi:end-' + kind,
+                          'integer box [%g, %g], n=%d, %s grid: end nodes (%r, %r) are not exactly the bounds, or a node lies outside the box' % (a, b, n, kind, lo_, hi_))
             # an index is an index in whatever integer type it is stored
             for dt in (np.uint8, np.int8, np.int16, np.uint16, np.int32):
                 if i_s.max() <= np.iinfo(dt).max:
